@@ -146,6 +146,9 @@ const FILES: [&str; 8] = [
     "f0", "f1.bin", "d0/f0", "d0/d1/f2", "sqpack/ffxiv/x.bin", "sqpack/ex1/ex1.ver", "movie/ffxiv/f3.bk2",
     "sqpack/ffxiv/040000.win32.dat0",
 ];
+/// expansion ids of file operations at the widths a narrower integer type or a shorter format
+/// would lose: two and three digits, around 2^8, the sign bit and the end of the 16-bit range
+const EDGE_EXP: [u16; 14] = [3, 9, 10, 12, 99, 100, 255, 256, 257, 258, 512, 0x7fff, 0x8000, 0xffff];
 const DIRPATHS: [&str; 5] = ["d1/d2/x", "sqpack/ex2/y", "d0/z", "movie/ex1/m", "q"];
 
 /// Paths with bytes beyond letters / digits / `._-` (raw here, escaped in the case line:
@@ -210,7 +213,13 @@ static ZDEN: std::sync::atomic::AtomicU64 = std::sync::atomic::AtomicU64::new(64
 
 fn rand_cmd(rng: &mut Rng, have: &mut Vec<u16>) -> String {
     let main = *rng.pick(&[0u16, 4, 4, 10, 19, 0x123, 0xffff]);
-    let mut sub = *rng.pick(&[0u16, 0, 1, 0x0100, 0x0101, 0x0200, 0x0c00]);
+    // sub id = expansion (high byte) and chunk (low byte): mostly small, one in eight anywhere in the
+    // 16-bit range (two- and three-digit expansion folders, chunk 255)
+    let mut sub = if rng.chance(1, 8) {
+        *rng.pick(&[0x00ffu16, 0x0a09, 0x6300, 0x6400, 0x7f80, 0x8000, 0xff00, 0xffff])
+    } else {
+        *rng.pick(&[0u16, 0, 1, 0x0100, 0x0101, 0x0200, 0x0c00])
+    };
     let file = rng.below(4);
     let off = match rng.below(50) {
         0 => rng.range(1000, 3000), // a data file of several hundred KiB
@@ -310,7 +319,9 @@ fn rand_cmd(rng: &mut Rng, have: &mut Vec<u16>) -> String {
         }
         17 => format!("FD:{}:{}", rng.below(3), rand_file(rng)),
         18 => {
-            let e = rng.below(3) as u16;
+            // the expansion id of a file operation is a 16-bit field of its own (not the high byte of
+            // a sub id): one in three is beyond the single-digit expansions
+            let e = if rng.chance(1, 3) { *rng.pick(&EDGE_EXP) } else { rng.below(3) as u16 };
             have.retain(|x| *x != e);
             format!("FR:{}:{}", e, rand_file(rng))
         }
@@ -370,6 +381,7 @@ pub fn generate(thorough: bool, seed: u64, out: &mut dyn Write) {
     // file operations on paths with blanks, punctuation, control characters
     generate_odd(thorough, seed, out);
     generate_blocked_targets(thorough, out);
+    generate_wide_ids(thorough, out);
     // bounded-exhaustive: all sequences of length <= 2 on every start tree, length 3 (quick) on one
     // start tree each / (thorough) on every start tree; every sequence starts with a TargetInfo
     for (ti, tree) in TREES.iter().enumerate() {
@@ -474,6 +486,42 @@ pub fn generate(thorough: bool, seed: u64, out: &mut dyn Write) {
 /// every odd file (quick: a third of the pairs, on one of the two trees each).
 /// AddFile whose target cannot be opened (a directory stands at its path): the command is
 /// skipped, but its data blocks still have to be consumed so that the chunks behind it are applied.
+/// RemoveAll / AddData / DeleteData / HeaderUpdate with expansion, sub, main and file ids over the
+/// whole width of their wire fields, on trees that hold files in the base, ex1, ex2 and ex12 folders
+/// and in the folder the command names (an id cut to 8 bits or formatted with too few digits lands
+/// in one of the former)
+fn generate_wide_ids(thorough: bool, out: &mut dyn Write) {
+    let base = "sqpack/ffxiv/x.bin:~20.1;sqpack/ffxiv/040000.win32.dat0:~300.2;sqpack/ex1/ex1.ver:~8.3;sqpack/ex2/f:~5.4;sqpack/ex12/g:~6.5;f0:~9.6";
+    for (i, e) in EDGE_EXP.iter().enumerate() {
+        for own in [false, true] {
+            let tree = if own { format!("{};sqpack/ex{}/h:~7.{}", base, e, i) } else { base.to_string() };
+            writeln!(out, "apply api=zipatch tree={} cmds={},FR:{}:sqpack/ffxiv/x", tree, target(0), e).unwrap();
+            if thorough || own {
+                writeln!(out, "apply api=game tree={} cmds=FR:{}:x,A:4:{}:0:0:0:~128.7", tree, e, (e & 0xff) << 8).unwrap();
+            }
+        }
+    }
+    let subs = [0x00ffu16, 0x0a09, 0x6300, 0x6400, 0x7f80, 0x8000, 0xff00, 0xffff];
+    let mains = [0u16, 0xff, 0x100, 0x1234, 0xffff];
+    let files = [0u32, 7, 9, 10, 255, 256, 65536, 0xffff_ffff];
+    for (i, sub) in subs.iter().enumerate() {
+        let main = mains[i % mains.len()];
+        let file = files[i % files.len()];
+        let t = target([0u16, 2, 3][i % 3]);
+        writeln!(out, "apply api=zipatch tree={} cmds={},A:{}:{}:{}:1:0:~256.{},E:{}:{}:{}:4:2", base, t, main, sub, file, i, main, sub, file).unwrap();
+        writeln!(out, "apply api=zipatch tree={} cmds={},A:{}:{}:{}:0:0:~128.{},H:D:V:{}:{}:{}:~1024.{},H:I:I:{}:{}:{}:~1024.{}",
+            base, t, main, sub, file, i, main, sub, file, i + 1, main, sub, file, i + 2).unwrap();
+        writeln!(out, "apply api=zipatch tree={} cmds={},A:{}:{}:{}:2:0:~128.{},D:{}:{}:{}:0:1", base, t, main, sub, file, i, main, sub, file).unwrap();
+    }
+    for (i, main) in mains.iter().enumerate() {
+        for (j, file) in files.iter().enumerate() {
+            if thorough || (i + j) % 2 == 0 {
+                writeln!(out, "apply api=zipatch tree={} cmds={},A:{}:256:{}:0:0:~128.{}", base, target(0), main, file, i + j).unwrap();
+            }
+        }
+    }
+}
+
 fn generate_blocked_targets(thorough: bool, out: &mut dyn Write) {
     let tree = "d0/d1/;f0:~40.22;sqpack/ffxiv/040000.win32.dat0:~300.20;sqpack/ex1/ex1.ver:323031322e30312e30312e303030302e30303030;ffxivboot.ver:31";
     let blocked: Vec<String> = vec![
